@@ -13,6 +13,6 @@ trap 'cd /repo && git checkout -- . && cd /verif/harness && cargo build --releas
 cd /verif/harness
 cargo build --release --offline --bin check 2>&1 | grep -E "^error" -A 8 | head -20
 for c in "$@"; do
-  out=$(MVH_VERIF_DIR=$SCR timeout 1800 ./target/release/check $c --tier quick ${SEED:+--seed $SEED} 2>&1 | grep -v "^KNOWN" | tail -4 | cut -c1-700)
+  out=$(MVH_VERIF_DIR=$SCR MVH_SCALE=${SCALE:-1} timeout 1800 ./target/release/check $c --tier quick ${SEED:+--seed $SEED} 2>&1 | grep -v "^KNOWN" | tail -4 | cut -c1-700)
   if echo "$out" | grep -q "VIOLATION"; then echo "[$c] DETECTED: $(echo "$out" | grep '^FAIL' | cut -c1-400)"; else echo "[$c] missed: $(echo "$out" | tail -1 | cut -c1-200)"; fi
 done
